@@ -248,6 +248,120 @@ fn decompress_case(value: &[u8], enc: &Option<Vec<u8>>) -> Line {
   l.done()
 }
 
+/// data of a cap case: `b` pseudo-random (incompressible) bytes from `seed`, then `z` zero bytes
+fn cap_data(seed: u64, b: usize, z: usize) -> Vec<u8> {
+  let mut r = Rng::new(seed);
+  let mut d = r.bytes(b);
+  d.resize(b + z, 0);
+  d
+}
+
+/// the compressed field of a cap case: brotli(cap_data) followed by `pad` bytes after the end of
+/// the stream (the decompressor stops at the end of the stream; the padding only counts in
+/// `value.len()`, i.e. in the ratio bound)
+fn cap_value(seed: u64, b: usize, z: usize, pad: usize) -> Vec<u8> {
+  let mut v = brotli_compress(&cap_data(seed, b, z));
+  v.resize(v.len() + pad, 0xaa);
+  v
+}
+
+/// op 5 line: 5 seed b z pad | vlen enc err sizes..   (the part after the descriptor is what the
+/// model reads; it is recomputed and compared on replay)
+fn cap_case(seed: u64, b: usize, z: usize, pad: usize) -> Line {
+  let value = cap_value(seed, b, z, pad);
+  let (sizes, err) = Inscription::verif_brotli_chunk_sizes(&value, bound(value.len()));
+  let mut l = L::new().p(5u8).p(seed).p(b).p(z).p(pad).p(value.len());
+  put_optb(&mut l, &Some(b"br".to_vec()));
+  l.push(err);
+  for s in sizes {
+    l.push(s);
+  }
+  l.done()
+}
+
+/// cases whose decompressed size sits exactly on / next to min(30 * |value|, 4 000 000)
+fn cap_cases(rng: &mut Rng, thorough: bool) -> Vec<Line> {
+  let (max_size, ratio) = limits();
+  let mut v = Vec::new();
+  // (A) ratio bound active: decompressed size = ratio * |value| + d, d in {-1, 0, 1}
+  let reps = if thorough { 6 } else { 2 };
+  for _ in 0..reps {
+    let seed = rng.next();
+    let b = rng.range(0, 600) as usize;
+    for d in [-1i64, 0, 1] {
+      // find z and pad with b + z = ratio * (compressed + pad) + d
+      let mut z = 40_000usize;
+      for _ in 0..8 {
+        let c = brotli_compress(&cap_data(seed, b, z)).len();
+        let k = (b + z) / ratio + 1; // |value| we aim at (>= c for data this compressible)
+        let k = k.max(c);
+        let want = (k * ratio) as i64 + d - b as i64;
+        if want as usize == z {
+          break;
+        }
+        z = want as usize;
+      }
+      let c = brotli_compress(&cap_data(seed, b, z)).len();
+      let total = (b + z) as i64 - d;
+      if total % ratio as i64 == 0 && (total / ratio as i64) as usize >= c {
+        v.push(cap_case(seed, b, z, (total / ratio as i64) as usize - c));
+      }
+    }
+  }
+  // (B) size cap active, compressed size above max_size / ratio: exactly max_size - 1, max_size, max_size + 1
+  let floor = max_size / ratio + 1;
+  for (k, extra) in [(0usize, 100usize), (1, 70_000)].iter().take(if thorough { 2 } else { 1 }) {
+    let _ = k;
+    let seed = rng.next();
+    let b = floor + extra;
+    for d in [-1i64, 0, 1] {
+      let z = (max_size as i64 + d) as usize - b;
+      v.push(cap_case(seed, b, z, 0));
+    }
+  }
+  // (C) decompressed size at the size cap but the ratio bound is the active one
+  let seed = rng.next();
+  for (b, d) in [(0usize, 0i64), (0, 1), (50_000, 0), (100_000, 1), (133_000, 0)] {
+    let z = (max_size as i64 + d) as usize - b;
+    v.push(cap_case(seed, b, z, 0));
+  }
+  // exactly on the corner: |value| = max_size / ratio rounded up with padding, output max_size and max_size + 1
+  let seed = rng.next();
+  let b = 1000;
+  for d in [0i64, 1] {
+    let z = (max_size as i64 + d) as usize - b;
+    let c = brotli_compress(&cap_data(seed, b, z)).len();
+    v.push(cap_case(seed, b, z, floor.saturating_sub(c)));
+    v.push(cap_case(seed, b, z, (floor - 1).saturating_sub(c)));
+  }
+  v
+}
+
+/// properties whose inline CBOR compresses at a ratio close to `ratio_x100 / 100`: k items with
+/// random txids (incompressible) and one long repetitive title (compressible)
+fn ratio_props(rng: &mut Rng, k: usize, ratio_x100: usize) -> Properties {
+  let gallery: Vec<Item> = (0..k)
+    .map(|_| {
+      let mut txid = [0u8; 32];
+      txid.copy_from_slice(&rng.bytes(32));
+      Item { id: Some(InscriptionId { txid: Txid::from_byte_array(txid), index: 0 }), attributes: Attributes::default(), index: None }
+    })
+    .collect();
+  let mut t = 1000usize;
+  let mut p = Properties { gallery, attributes: Attributes { title: Some("a".repeat(t)), traits: Traits::default() }, txids: Vec::new() };
+  for _ in 0..12 {
+    let packed = ord::verif::envelope::properties_to_packed_cbor(&p).unwrap();
+    let c = brotli_compress(&packed).len().max(1);
+    let want = c * ratio_x100 / 100;
+    if packed.len() == want {
+      break;
+    }
+    t = (t + want).saturating_sub(packed.len()).max(1);
+    p.attributes.title = Some("a".repeat(t));
+  }
+  p
+}
+
 fn candidates(p: &Properties) -> Vec<Vec<u8>> {
   let mut v = Vec::new();
   if let Some(inline) = ord::verif::envelope::properties_to_inline_cbor(p) {
@@ -398,6 +512,7 @@ pub fn gen(rng: &mut Rng, tier: &str) -> Vec<Line> {
     };
     v.push(decompress_case(&value, &enc));
   }
+  v.extend(cap_cases(rng, thorough));
   // ---- op 3: candidate choice (brotli at quality 11 is slow: few cases)
   let n3 = if thorough { 400 } else { 60 };
   for _ in 0..n3 {
@@ -408,6 +523,13 @@ pub fn gen(rng: &mut Rng, tier: &str) -> Vec<Line> {
     for b in &c {
       l.push(b.len());
     }
+    put_props_in(&mut l, &p);
+    v.push(l.done());
+  }
+  // ---- op 6: encode_properties(compress) -> properties() on values compressing near the 30:1 limit
+  for (k, r) in [(2usize, 2900usize), (3, 2990), (3, 3000), (4, 3010), (3, 3050), (5, 3090), (3, 3100), (4, 3110), (2, 3300)] {
+    let p = ratio_props(rng, k, r);
+    let mut l = L::new().p(6u8);
     put_props_in(&mut l, &p);
     v.push(l.done());
   }
@@ -475,8 +597,16 @@ pub fn run(case: &Line) -> Outcome {
         Outcome { obs: l.done(), oracle, cat }
       })
     }
-    1 => {
-      let value = c.bytes();
+    op @ (1 | 5) => {
+      let (value, desc_len) = if op == 5 {
+        let seed = c.u64();
+        let b = c.usize();
+        let z = c.usize();
+        let pad = c.usize();
+        (cap_value(seed, b, z, pad), Some(c.usize()))
+      } else {
+        (c.bytes(), None)
+      };
       let enc = if c.bool() { Some(c.bytes()) } else { None };
       let err = c.bool();
       let mut sizes = Vec::new();
@@ -496,6 +626,9 @@ pub fn run(case: &Line) -> Outcome {
         }
         let max = bound(value.len());
         let mut oracle = Ok(());
+        if desc_len.is_some() && desc_len != Some(value.len()) {
+          oracle = Err("stale case: descriptor expands to a value of another length".into());
+        }
         // the recorded chunk stream must be what the decompressor yields now
         let (now, now_err) = Inscription::verif_brotli_chunk_sizes(&value, max);
         if enc.as_deref() == Some(b"br") && (now != sizes || now_err != err) {
@@ -509,7 +642,7 @@ pub fn run(case: &Line) -> Outcome {
             }
           }
         }
-        let mut cat = "decompress/".to_string();
+        let mut cat = if op == 5 { "cap/".to_string() } else { "decompress/".to_string() };
         if enc.as_deref() == Some(b"br") {
           let mut full = Vec::new();
           let res = brotli::Decompressor::new(value.as_slice(), 4096).take(max as u64 + 1).read_to_end(&mut full);
@@ -518,11 +651,14 @@ pub fn run(case: &Line) -> Outcome {
               if *v != full {
                 oracle = Err("properties_cbor differs from plain decompression".into());
               }
-              cat.push_str(if full.len() * 2 > max && max > 0 { "some/near-limit" } else { "some" });
+              cat.push_str(if full.len() == max { "some/at-limit" } else if full.len() + 1 == max { "some/limit-1" } else if full.len() * 2 > max && max > 0 { "some/near-limit" } else { "some" });
+              if max == limits().0 {
+                cat.push_str("/size-cap");
+              }
             }
             (Ok(_), None) if full.len() <= max => oracle = Err("properties_cbor refused a stream within the limits".into()),
             (Ok(_), Some(_)) => oracle = Err("properties_cbor returned a value beyond the limit".into()),
-            (Ok(_), None) => cat.push_str("none/over-limit"),
+            (Ok(_), None) => cat.push_str(if max == limits().0 { "none/over-limit/size-cap" } else { "none/over-limit" }),
             (Err(_), None) => cat.push_str("none/stream-error"),
             (Err(_), Some(_)) => oracle = Err("properties_cbor returned a value for a broken stream".into()),
           }
@@ -584,6 +720,27 @@ pub fn run(case: &Line) -> Outcome {
           }
         }
         Outcome { obs: l.done(), oracle, cat: format!("choose/n{}", cands.len()) }
+      })
+    }
+    6 => {
+      let p = get_props(&mut c);
+      guarded("ratio", || {
+        let mut oracle = Ok(());
+        let mut cat = "ratio/".to_string();
+        match Inscription::verif_encode_properties(true, &p) {
+          Ok((Some(bytes), enc)) => {
+            let inline_len = ord::verif::envelope::properties_to_inline_cbor(&p).map(|b| b.len()).unwrap_or(0);
+            cat.push_str(&format!("{}{}", if enc.is_some() { "compressed/x" } else { "plain/x" }, if enc.is_some() { inline_len / bytes.len().max(1) } else { 1 }));
+            let i = Inscription { properties: Some(bytes), property_encoding: enc, ..Default::default() };
+            if i.verif_properties() != p {
+              oracle = Err("properties encoded by encode_properties(compress) do not decode to the same properties".into());
+            }
+          }
+          Ok((None, _)) => cat.push_str("default"),
+          Err(e) if e.contains("compression over") => cat.push_str("refused-by-encoder"),
+          Err(e) => oracle = Err(format!("encode_properties failed: {e}")),
+        }
+        Outcome { obs: L::new().p(0u8).done(), oracle, cat }
       })
     }
     4 => {
